@@ -296,6 +296,12 @@ class World:
                     continue
                 if before.get(p) != after.get(p):
                     what = "created" if p not in before else ("removed" if p not in after else "modified")
+                    if p not in self.mfs:
+                        # a file the workload knows nothing about (a side file the library itself keeps, e.g. the
+                        # band.em that bandpass drops into the cwd): none of the properties speaks about such files,
+                        # so this is counted, not judged
+                        self.probes["side_file_" + what] += 1
+                        continue
                     raise Violation("collateral_damage", "%s:%s" % (step["op"], what),
                                     "step %d (%s) %s %s, which it was not asked to write" % (
                                         self.step_no, step["op"], what, p))
